@@ -68,16 +68,19 @@ def set_time(m, t):
         m.details.p1_time = Timestamp(t)
 
 
-def distinct_content(m, ident):
-    """make the object recognisable by content as well: every plain float attribute gets a value derived from the id"""
+def distinct_content(m, ident, wire=False):
+    """make the object recognisable by content as well: every plain float attribute gets a value derived from the id
+    (wire=True: small values that survive every fixed-point wire encoding)"""
     k = 0
     for name, v in list(vars(m).items()):
         if name != 'p1_time' and isinstance(v, float):
-            setattr(m, name, 1000.0 * ident + k + 0.5)
+            setattr(m, name, (ident + 0.5) if wire else (1000.0 * ident + k + 0.5))
             k += 1
 
 
 def run_case(c):
+    if c.get('via') == 'read':
+        return run_read(c)
     scale = c.get('scale', 1)
     data, idmaps, origs, classes, nominal = {}, [], [], [], []
     snapshots = []
@@ -103,61 +106,171 @@ def run_case(c):
             snapshots.append((m, canon(vars(m))))
         data[cls.MESSAGE_TYPE] = md
         idmaps.append(idmap); origs.append((md.messages, list(md.messages))); classes.append(cls); nominal.append(nom)
-    mode = {'N': TimeAlignmentMode.NONE, 'D': TimeAlignmentMode.DROP, 'I': TimeAlignmentMode.INSERT}[c['mode']]
-    mt = c.get('mt')
-    if mt is not None:
-        mt = [get_class(n) if c.get('mt_as') == 'class' else get_class(n).MESSAGE_TYPE for n in mt]
-        if c.get('mt_container') == 'tuple':
-            mt = tuple(mt)
-        elif c.get('mt_container') == 'set' and c.get('mt_as') != 'class':
-            mt = set(mt)
-    keys_before = list(data.keys())
-    ret = DataLoader.time_align_data(data, mode, message_types=mt)
-    out, lists = [], []
-    all_ids = {}
-    for im in idmaps:
-        all_ids.update(im)
-    for (cls, idmap, (lst, elems), nom) in zip(classes, idmaps, origs, nominal):
-        if isinstance(cls, MessageType):
-            md = data[cls]
+    steps = c.get('steps') or [{k: c.get(k) for k in ('mode', 'mt', 'mt_as', 'mt_container')}]
+    next_id = sum(len(e.get('msgs', [])) for e in c['entries'])
+    outs = []
+    for st in steps:
+        if st.get('numpy'):
+            # numpy conversion of the same MessageData objects before this step (cached arrays stay on the objects)
+            try:
+                DataLoader.to_numpy(data, keep_messages=True)
+            except Exception as e:
+                outs.append('NUMPYEXC:%s' % type(e).__name__)
+                break
+        mode = MODES[st['mode']]
+        mt = make_mt(st)
+        keys_before = list(data.keys())
+        try:
+            ret = DataLoader.time_align_data(data, mode, message_types=mt)
+        except Exception as e:
+            outs.append('EXC:%s:%s' % (type(e).__name__, str(e).replace('\n', ' ')[:160]))
+            break
+        out, lists, fresh = [], [], []
+        all_ids = {}
+        for im in idmaps:
+            all_ids.update(im)
+        for (cls, idmap, (lst, elems), nom) in zip(classes, idmaps, origs, nominal):
+            if isinstance(cls, MessageType):
+                md = data[cls]
+                lists.append('1' if md.messages is lst else '0')
+                out.append('R:' + ','.join('B?' for _ in md.messages))
+                continue
+            md = data[cls.MESSAGE_TYPE]
             lists.append('1' if md.messages is lst else '0')
-            out.append('R:' + ','.join('B?' for _ in md.messages))
-            continue
-        md = data[cls.MESSAGE_TYPE]
-        lists.append('1' if md.messages is lst else '0')
-        items = []
-        timed = hasattr(cls(), 'p1_time')
-        default_canon = None
-        for el in md.messages:
-            if id(el) in idmap:
-                ident = idmap[id(el)]
-                t = nom[ident]
-                if timed:
-                    now = float(el.p1_time)
-                    if not (now == t or (math.isnan(now) and math.isnan(t))):
-                        items.append('T!%s:%d' % (fmt_t(now), ident)); continue
-                items.append('K%s:%d' % (fmt_t(t * scale), ident))
-            elif id(el) in all_ids:
-                items.append('X')
-            else:
-                try:
-                    t = float(el.p1_time)
-                except Exception:
-                    items.append('B?'); continue
-                if default_canon is None:
-                    d = canon(vars(cls())); d.pop('p1_time', None); default_canon = d
-                mine = canon(vars(el)); mine.pop('p1_time', None)
-                ok = type(el) is cls and mine == default_canon
-                items.append(('F' if ok else 'B') + fmt_t(t * scale))
-        out.append('R:' + ','.join(items))
-    s = 'OK ' + ' '.join(out)
-    if any(canon(vars(m)) != snap for m, snap in snapshots):
-        s += ' MUTATED'
-    if ret is not data:
-        s += ' RET'
-    if list(data.keys()) != keys_before:
-        s += ' KEYS'
-    return s + ' | lists=' + ''.join(lists)
+            items = []
+            timed = hasattr(cls(), 'p1_time')
+            default_canon = None
+            for el in md.messages:
+                if id(el) in idmap:
+                    ident = idmap[id(el)]
+                    t = nom[ident]
+                    if timed:
+                        now = float(el.p1_time)
+                        if not (now == t or (math.isnan(now) and math.isnan(t))):
+                            items.append('T!%s:%d' % (fmt_t(now * scale), ident)); continue
+                    items.append('K%s:%d' % (fmt_t(t * scale), ident))
+                elif id(el) in all_ids:
+                    items.append('X')
+                else:
+                    try:
+                        t = float(el.p1_time)
+                    except Exception:
+                        items.append('B?'); continue
+                    if default_canon is None:
+                        d = canon(vars(cls())); d.pop('p1_time', None); default_canon = d
+                    mine = canon(vars(el)); mine.pop('p1_time', None)
+                    ok = type(el) is cls and mine == default_canon
+                    items.append(('F' if ok else 'B') + fmt_t(t * scale))
+                    fresh.append((el, idmap, nom, t))
+            out.append('R:' + ','.join(items))
+        s = 'OK ' + ' '.join(out)
+        if any(canon(vars(m)) != snap for m, snap in snapshots):
+            s += ' MUTATED'
+        if ret is not data:
+            s += ' RET'
+        if list(data.keys()) != keys_before:
+            s += ' KEYS'
+        outs.append(s + ' | lists=' + ''.join(lists))
+        # inserted messages are ordinary inputs of the next step: number them in (entry, position) order
+        for el, idmap, nom, t in fresh:
+            idmap[id(el)] = next_id
+            nom[next_id] = t
+            snapshots.append((el, canon(vars(el))))
+            next_id += 1
+        origs = [(data[cls if isinstance(cls, MessageType) else cls.MESSAGE_TYPE].messages, None) for cls in classes]
+    return ' ;; '.join(outs)
+
+
+MODES = {'N': TimeAlignmentMode.NONE, 'D': TimeAlignmentMode.DROP, 'I': TimeAlignmentMode.INSERT}
+
+
+def make_mt(st):
+    """message_types / aligned_message_types argument in the requested form: MessageType values, classes or a mix, in a
+    list, tuple or set"""
+    mt = st.get('mt')
+    if mt is None:
+        return None
+    form = st.get('mt_as') or 'type'
+    res = []
+    for k, n in enumerate(mt):
+        as_class = form == 'class' or (form == 'mixed' and k % 2 == 0)
+        res.append(get_class(n) if as_class else get_class(n).MESSAGE_TYPE)
+    cont = st.get('mt_container') or 'list'
+    return tuple(res) if cont == 'tuple' else (set(res) if cont == 'set' else res)
+
+
+def run_read(c):
+    """the same property observed through DataLoader.read(time_align=..., aligned_message_types=...): the messages are
+    written to a .p1log file; an unaligned read of that file gives the reference objects (identified by content and
+    position), the aligned read is observed against them"""
+    import os, tempfile
+    from fusion_engine_client.parsers import FusionEngineEncoder
+    scale = c.get('scale', 1)
+    enc = FusionEngineEncoder()
+    per_entry = []
+    for e in c['entries']:
+        cls = get_class(e['cls'])
+        lst = []
+        for t, ident in e['msgs']:
+            m = cls()
+            set_time(m, t / scale)
+            distinct_content(m, ident, wire=True)
+            try:
+                lst.append((ident, t, enc.encode_message(m)))
+            except Exception as ex:
+                return 'SKIP:cannot encode %s (%s)' % (cls.__name__, type(ex).__name__)
+        per_entry.append((cls, lst))
+    # interleave round-robin, keeping each type's own order
+    blob, k = b'', 0
+    while any(k < len(l) for _, l in per_entry):
+        for _, l in per_entry:
+            if k < len(l):
+                blob += l[k][2]
+        k += 1
+    fd, path = tempfile.mkstemp(suffix='.p1log', dir=c['tmpdir'])
+    os.write(fd, blob); os.close(fd)
+    try:
+        classes = [cls for cls, _ in per_entry]
+        req = [(cls if c.get('read_as') == 'class' else cls.MESSAGE_TYPE) for cls in classes]
+        ref = DataLoader(path, save_index=False, ignore_index=True, num_threads=1).read(message_types=list(req), quiet=True)
+        hashes = []
+        for cls, lst in per_entry:
+            got = ref[cls.MESSAGE_TYPE].messages if cls.MESSAGE_TYPE in ref else []
+            if len(got) != len(lst):
+                return 'SKIP:unaligned read returned %d of %d %s' % (len(got), len(lst), cls.__name__)
+            hm = {}
+            for m, (ident, t, _) in zip(got, lst):
+                hm.setdefault(json.dumps(canon(vars(m)), sort_keys=True, default=str), []).append((ident, t))
+            hashes.append(hm)
+        st = {k: c.get(k) for k in ('mode', 'mt', 'mt_as', 'mt_container')}
+        res = DataLoader(path, save_index=False, ignore_index=True, num_threads=1).read(
+            message_types=list(req), time_align=MODES[c['mode']], aligned_message_types=make_mt(st), quiet=True)
+        out = []
+        for cls, hm in zip(classes, hashes):
+            if cls.MESSAGE_TYPE not in res:
+                out.append('R:MISSING'); continue
+            items = []
+            d = canon(vars(cls())); d.pop('p1_time', None)
+            for el in res[cls.MESSAGE_TYPE].messages:
+                h = json.dumps(canon(vars(el)), sort_keys=True, default=str)
+                if hm.get(h):
+                    # messages with identical content (classes without numeric fields) are told apart by their order
+                    ident, t = hm[h].pop(0)
+                    items.append('K%s:%d' % (fmt_t(t), ident))
+                else:
+                    try:
+                        t = float(el.p1_time)
+                    except Exception:
+                        items.append('B?'); continue
+                    mine = canon(vars(el)); mine.pop('p1_time', None)
+                    items.append(('F' if (type(el) is cls and mine == d) else 'B') + fmt_t(t * scale))
+            out.append('R:' + ','.join(items))
+        s = 'OK ' + ' '.join(out)
+        if set(res.keys()) != set(cls.MESSAGE_TYPE for cls in classes):
+            s += ' KEYS'
+        return s + ' | lists='
+    finally:
+        os.unlink(path)
 
 
 def main():
